@@ -57,7 +57,7 @@ def gen_plan(rng, tier, run):
             "fseed": rng.randrange(1 << 30),
             "enum": "full" if (tier == "thorough" and rng.random() < 0.12) else "reduced",
             "double": (tier == "thorough" and rng.random() < 0.3),
-            "files": [], "plugins": {}}
+            "files": [], "plugins": {}, "bmc": rng.random() < 0.15}
     if rng.random() < 0.25:
         plan["opts"].append("-P")
     n = rng.randint(1, 4) if mode == "json" else 1
@@ -286,7 +286,9 @@ def execute(plan):
     violations = []
     evals = events = 0
     h = hashlib.sha256()
-    with World(plugins=plan.get("plugins") or None) as w:
+    with World(plugins=plan.get("plugins") or None, bmc="D" if plan.get("bmc") and plan["mode"] == "json" else None) as w:
+        if w.bmc:
+            bump("environment:bmc")
         if plan.get("plugins"):
             bump("plans_with_fake_plugins")
         w.fresh_per_run = bool(plan.get("fresh"))
